@@ -28,6 +28,16 @@ func verifAuthLevelStringR(x pbx.AuthLevel) string {
 	return "?"
 }
 
+// JSON decoding of payload bytes is reflection-driven: a stub (non-empty bytes -> their text, empty -> nil)
+//
+//verif:override github.com/tinode/chat/server.bytesToInterface
+func verifBytesToInterfaceR(in []byte) any {
+	if len(in) == 0 {
+		return nil
+	}
+	return string(in)
+}
+
 var verifJSONDelWhat = []string{"", "msg", "topic", "sub", "user", "cred"}
 var verifJSONNoteWhat = []string{"", "read", "recv", "kp", "call"}
 var verifJSONCallEvent = []string{"", "accept", "answer", "hang-up", "ice-candidate", "invite", "offer", "ringing"}
@@ -117,5 +127,51 @@ func Harness_C20_grpc_request_extra() {
 	back := pbCliSerialize(&ClientComMessage{Leave: &MsgClientLeave{Id: "1", Topic: "me"}, AuthLvl: int(auth.Level(lvl)),
 		Extra: &MsgClientExtra{AsUser: obo}})
 	verifAssert(back != nil && back.GetExtra() != nil && back.GetExtra().GetAuthLevel() == lvl && back.GetExtra().GetOnBehalfOf() == obo, "extra-forwarded-with-the-same-level")
+	verifReach("end")
+}
+
+// The description part of {set}, {sub set=...} and {acc}: whichever of default access, public, trusted and private
+// the client sent - alone or together - arrives, and nothing else does (a request carrying only "trusted" is as
+// good as any other).
+func Harness_C20_grpc_request_desc() {
+	hasDef, hasPub, hasTr, hasPriv := verifNondetBool("defacs"), verifNondetBool("public"), verifNondetBool("trusted"), verifNondetBool("private")
+	d := &pbx.SetDesc{}
+	if hasDef {
+		d.DefaultAcs = &pbx.DefaultAcsMode{Auth: "JRWPS", Anon: "N"}
+	}
+	if hasPub {
+		d.Public = []byte(`"pub"`)
+	}
+	if hasTr {
+		d.Trusted = []byte(`"tr"`)
+	}
+	if hasPriv {
+		d.Private = []byte(`"priv"`)
+	}
+	var got *MsgSetDesc
+	switch verifChoose("carrier", 3) {
+	case 0:
+		m := pbCliDeserialize(&pbx.ClientMsg{Message: &pbx.ClientMsg_Set{Set: &pbx.ClientSet{Id: "1", Topic: "me", Query: &pbx.SetQuery{Desc: d}}}})
+		verifAssert(m != nil && m.Set != nil, "set-deserialized")
+		got = m.Set.Desc
+	case 1:
+		m := pbCliDeserialize(&pbx.ClientMsg{Message: &pbx.ClientMsg_Sub{Sub: &pbx.ClientSub{Id: "1", Topic: "new", SetQuery: &pbx.SetQuery{Desc: d}}}})
+		verifAssert(m != nil && m.Sub != nil, "sub-deserialized")
+		if m.Sub.Set != nil {
+			got = m.Sub.Set.Desc
+		}
+	case 2:
+		m := pbCliDeserialize(&pbx.ClientMsg{Message: &pbx.ClientMsg_Acc{Acc: &pbx.ClientAcc{Id: "1", UserId: "new", Desc: d}}})
+		verifAssert(m != nil && m.Acc != nil, "acc-deserialized")
+		got = m.Acc.Desc
+	}
+	any := hasDef || hasPub || hasTr || hasPriv
+	verifAssert((got != nil) == any, "description-arrives-iff-something-was-sent")
+	if got != nil {
+		verifAssert((got.DefaultAcs != nil) == hasDef && (got.Public != nil) == hasPub && (got.Trusted != nil) == hasTr && (got.Private != nil) == hasPriv, "each-description-field-arrives-iff-sent")
+		if hasDef {
+			verifAssert(got.DefaultAcs.Auth == "JRWPS" && got.DefaultAcs.Anon == "N", "default-access-as-in-json")
+		}
+	}
 	verifReach("end")
 }
